@@ -32,25 +32,39 @@ def nested_sessions(args):
             with ds.filler() as f0:
                 for v in range(3):
                     f0.write_example(values=sp.val(v), split="train"); want.append(v)
+            if a.get("existing_sub"):
+                # the sub-directory the inner session will write into already exists (committed by an earlier session)
+                with DatasetFiller(ds, relative_path_from_split=Path("a")) as g0:
+                    for v in range(50, 50 + a["eps"] + 1):
+                        g0.write_example(values=sp.val(v), split="train"); want.append(v)
             outer = ds.filler()
             octx = outer.__enter__()
             try:
-                octx.write_example(values=sp.val(100), split="train"); want.append(100)
+                # the outer session has one example in an open shard — or (closed_first) has already closed its first shard of the
+                # split, i.e. has loaded the split's list as it was then
+                for v in range(100, 100 + (a["eps"] + 1 if a.get("closed_first") else 1)):
+                    octx.write_example(values=sp.val(v), split="train"); want.append(v)
                 with DatasetFiller(ds, relative_path_from_split=Path("a")) as g:
                     for v in range(200, 200 + a["eps"] + 1):
                         g.write_example(values=sp.val(v), split="train"); want.append(v)
-                if a["multi"]:
+                if a["multi"] and not a.get("closed_first"):
                     def feed(filler, lo):
                         with filler as f:
                             f.write_example(values=sp.val(lo), split="train")
                         return lo
                     ds.write_multiprocessing(feed_writer=feed, custom_arguments=[(300,), (301,)], single_process=True, consistency_check=False)
                     want += [300, 301]
-                octx.write_example(values=sp.val(101), split="train"); want.append(101)
+                elif a["multi"]:
+                    pass
+                octx.write_example(values=sp.val(199), split="train"); want.append(199)
             finally:
                 outer.__exit__(None, None, None)
             problems, per_split = T.recount(root)
             got = sp.read_ids(Dataset(root), "train")
+            try:
+                Dataset(root).check(show_progressbar=False)
+            except Exception as e:  # noqa: BLE001
+                problems = problems + [f"check() fails: {type(e).__name__}: {str(e)[:120]}"]
             out.append({"case": {k: a[k] for k in a if k != "root"}, "want": sorted(want), "got": sorted(got), "problems": problems[:4]})
         except Exception as e:  # noqa: BLE001
             out.append({"case": {k: a[k] for k in a if k != "root"}, "want": sorted(want), "error": f"{type(e).__name__}: {str(e)[:200]}"})
@@ -142,6 +156,48 @@ def aborted_then_completed(a):
         out["problems"].append(f"{type(e).__name__}: {str(e)[:200]}")
     shutil.rmtree(root, ignore_errors=True)
     return out
+
+
+def create_during_commit(ctx, fmt, j):
+    """`Dataset.create` at every instant of another handle's commit: a continued session runs in the C06 writer child, which copies the
+    directory before every file-system effect and after every rename; on each copy — what a second process sees at that instant —
+    `create` must be refused and change nothing."""
+    import json, subprocess, sys
+    from harness.core.ctx import PY, VERIF
+    from harness.core import sp
+    sp.sedpack()
+    from sedpack.io import Dataset, Metadata
+    from sedpack.io.dataset_base import DatasetBase  # noqa: F401
+    root = ctx.scratch / f"c08_cdc{j}"; snaps = ctx.scratch / f"c08_cdc{j}_snaps"
+    for d in (root, snaps): shutil.rmtree(d, ignore_errors=True)
+    snaps.mkdir()
+    ds = sp.mk(root, fmt=fmt, eps=2, hashes=("sha256",))
+    with ds.filler() as f:
+        for v in range(5): f.write_example(values=sp.val(v), split="train")
+    arg = ctx.scratch / "c08_cdc.arg.json"; out = ctx.scratch / "c08_cdc.out.json"
+    if out.exists(): out.unlink()
+    arg.write_text(json.dumps({"kind": "filler", "sub": ["." , "a"][j % 2], "writes": [[0, 3], [1, 1]], "root": str(root), "snap": str(snaps), "base": 100, "uuid_base": 0}))
+    subprocess.run([PY, str(VERIF / "harness" / "checks" / "c06_writer.py"), str(arg), str(out)], capture_output=True, text=True, timeout=900)
+    if not out.exists():
+        raise RuntimeError("c06_writer produced no result")
+    log = json.loads(out.read_text())["log"]
+    problems, n = [], 0
+    for e in log:
+        sd = snaps / f"{e['k']:05d}"
+        if not sd.is_dir() or e["tag"] == "after-write":
+            continue
+        n += 1
+        before = {str(p.relative_to(sd)): p.read_bytes() for p in sd.rglob("*") if p.is_file()}
+        try:
+            Dataset.create(sd, Metadata(description="intruder"), ds.dataset_structure)
+            verdict = "created"
+        except Exception as ex:  # noqa: BLE001
+            verdict = type(ex).__name__
+        after = {str(p.relative_to(sd)): p.read_bytes() for p in sd.rglob("*") if p.is_file()}
+        if verdict == "created" or before != after:
+            problems.append(f"at effect {e['k']} ({e['tag']} {e.get('path', e.get('dst', ''))}): create -> {verdict}, files changed: {sorted(k for k in set(before) | set(after) if before.get(k) != after.get(k))[:3]}")
+    shutil.rmtree(root, ignore_errors=True); shutil.rmtree(snaps, ignore_errors=True)
+    return n, problems
 
 
 def manual_commit(a):
@@ -245,6 +301,14 @@ def run(ctx):
             ctx.report({"kind": "append-only", "other_locale": True},
                        f"sessions by a process with default text encoding {mid['encoding']} ({[s_['outcome'] for s_ in mid['sessions']]}) into directories whose lists hold non-ASCII metadata: "
                        f"the dataset now returns {after['ids']}, expected {want} (lost {sorted(set(want) - set(after['ids'] if isinstance(after['ids'], list) else []))[:8]})", {"case": la, "sessions": mid["sessions"], "before": before, "after": after})
+    # ---- `create` while another handle commits: refused at every instant
+    ncdc = 0
+    for j in range(ctx.pick(1, 3)):
+        n_, probs = create_during_commit(ctx, ["fb", "npz", "tfrec"][(j + ctx.seed) % 3], j)
+        ncdc += n_
+        if probs:
+            ctx.report({"kind": "create", "during_commit": True}, f"Dataset.create on a directory in which another handle is committing a session: {probs[0]}", {"instants": n_, "problems": probs[:5]})
+    ctx.cov["create_during_commit_instants"] = ncdc
     # ---- several held-back fillers (split directory, sub-directory, nested sub-directory, two splits) committed by ONE write_config
     for j, order in enumerate([[0, 1, 2], [1, 0, 2], [2, 1, 0]][: ctx.pick(2, 3)]):
         ma = {"root": str(ctx.scratch / f"c08_manual{j}"), "fmt": ["fb", "npz", "tfrec"][(j + ctx.seed) % 3], "hashes": [["sha256"], [], ["md5"]][j % 3], "order": order, "reopen": bool(j % 2)}
@@ -255,7 +319,11 @@ def run(ctx):
                        f"three fillers with auto_update_dataset=False committed by one write_config (info order {order}): {r.get('error') or r.get('problems') or ''} "
                        f"read back {r.get('got')} (recorded {r.get('recorded')}), written {r.get('want')}", {"case": r["case"], "result": {k: v for k, v in r.items() if k != 'case'}})
     nest = child.call("harness.checks.c08", "nested_sessions",
-                      [{"root": str(ctx.scratch / f"c08n_{i}"), "fmt": ["fb", "npz", "tfrec"][i % 3], "eps": 1 + i % 3, "multi": bool(i % 2)} for i in range(ctx.pick(3, 9))], timeout=900)
+                      [{"root": str(ctx.scratch / f"c08n_{i}"), "fmt": ["fb", "npz", "tfrec"][i % 3], "eps": 1 + i % 3, "multi": bool(i % 2),
+                        # (closed_first: the open outer filler has already loaded the split's list; then only sessions into sub-directories that
+                        # list already names are nested inside it — a *new* child committed meanwhile is outside "one live handle at a time":
+                        # the outer filler's copy of the list, written back on exit, cannot know it; see DESIGN §0.6, twelfth batch)
+                        "closed_first": i % 3 != 0, "existing_sub": i % 3 != 0 or i % 2 == 0} for i in range(ctx.pick(4, 9))], timeout=900)
     for r in nest:
         if r.get("error") or r["got"] != r["want"] or r["problems"]:
             ctx.report({"kind": "append-only", "nested_in_time": True},
